@@ -1,7 +1,7 @@
 SPECIFICATION Spec
 CONSTANTS
   N = 2
-  BigN = {99, 100, 101}
+  BigN = {99, 100, 101, 256, 300}
 INVARIANTS TypeOK CountsCapped NoGreaseHashed SortedB SortedC
 PROPERTIES Invariance
 CHECK_DEADLOCK FALSE
